@@ -745,6 +745,7 @@ pub fn gen_cfg(i: usize) -> crate::progen::Cfg {
         generic_fn_values: false,
         overlapping_impls: i % 3 != 1,
         result_only_generics: i % 4 != 3,
+        cov_shapes: i % 4 == 2,
         ..Default::default()
     }
 }
